@@ -56,6 +56,11 @@ def gen(tier, rnd):
         if tier == 'quick' and rnd.random() > 0.08:
             continue
         L.append('U ' + hx(s + b'://' + h + p + pa + q))
+    # port numbers: every digit string around the limits (65535 / 65536, one digit more, leading zeros, what wraps in 16 and 32 bits)
+    for pt in (b'65534', b'65535', b'65536', b'65537', b'655350', b'655359', b'655360', b'6553500000', b'065535', b'0065536', b'00000', b'000001', b'131071', b'131072',
+               b'4294967295', b'4294967296', b'4294967297', b'4295032831', b'18446744073709551616', b'6553', b'65530', b'9', b'99999', b'100000'):
+        for form in (b'coap://h:%s/x', b'coap://[2001:db8::1]:%s', b'coaps+tcp://example.com:%s/a?b=1', b'coap://h:%s'):
+            L.append('U ' + hx(form % pt))
     for u in (b'coap://', b'coap:///a', b'coap://[', b'coap://[]', b'coap://[::1', b'coap:/h/a', b'coap:h', b'http://h/a', b'cap://h/a',
               b'coap://h:1:2/', b'://h', b'coap://h/a?b#c', b'coap://:5683/a', b'coapx://h', b'coap', b'c', b'coap://h?x', b'coap://h:5/?x',
               b'coaps://h:/', b'/a/b', b'/', b'coap://%2Funix', b'coap://h/%', b'coap://h/%4'):
